@@ -24,7 +24,8 @@ def group_builder(G, op):
             return ca.Function("f", [a], [ca.densify(X.inverse().Ad())])
         if op in ("AdHom", "AdHomPole"):
             b, Y = sym_elem(G, "b")
-            return ca.Function("f", [a, b], [ca.densify((X * Y).Ad())])
+            AX = X.Ad(); AY = Y.Ad()         # both operators are held before either is used (a user's A = X.Ad(); B = Y.Ad(); A @ B)
+            return ca.Function("f", [a, b], [ca.densify((X * Y).Ad()), ca.densify(AX @ AY)])
     return mk
 
 
@@ -39,8 +40,10 @@ def alg_builder(alg, op):
             return ca.Function("f", [a, b], [(x * y).param, (y * x).param])
         c = ca.SX.sym("c", n); z = alg.elem(c)
         if op == "jac":
+            Ax = x.ad(); Ay = y.ad()         # two ad matrices held at once, then used: ad_x (ad_y z) = [x,[y,z]]
             return ca.Function("f", [a, b, c], [(x * (y * z)).param,
-                                                (x * (y * z)).param + (y * (z * x)).param + (z * (x * y)).param])
+                                                (x * (y * z)).param + (y * (z * x)).param + (z * (x * y)).param,
+                                                ca.densify(Ax @ (Ay @ c))])
     return mk
 
 
@@ -69,11 +72,15 @@ def replay_group_op(run, cache, op, gk, tvs):
         return
     k = 2 if op in ("AdHom", "AdHomPole") else 1
     cols = [np.array([embed(tv["a"][i]) for tv in tvs]).T for i in range(k)]
-    out = batch_call(f, cols)[0]
+    outs = batch_call(f, cols)
+    out = outs[0]
     run.count("evaluations", len(tvs))
     exp = np.array([rm_to_np(tv["exp"]).flatten(order="F") for tv in tvs]).T
     compare(run, f"{gk}/{op}/value", f"{op}: differs from the conjugation matrix", out, exp, tvs,
             tol=(2e-3 if op.endswith("Pole") else TOL))      # documented gimbal band tolerance for results on a pole
+    if k == 2:
+        compare(run, f"{gk}/{op}/operator_product", "Ad_X Ad_Y (both operators held, then multiplied) differs from the conjugation matrix of XY",
+                outs[1], exp, tvs, tol=(2e-3 if op.endswith("Pole") else TOL))
 
 
 def replay_alg_op(run, cache, op, kind, tvs):
@@ -105,6 +112,8 @@ def replay_alg_op(run, cache, op, kind, tvs):
         exp = np.array([tv["exp"] for tv in tvs], float).T
         compare(run, f"{kind}/bracket/nested", "[x,[y,z]] differs from the matrix commutator", outs[0], exp, tvs)
         compare(run, f"{kind}/bracket/jacobi", "Jacobi identity violated", outs[1], 0 * exp, tvs)
+        compare(run, f"{kind}/ad/operator_form", "ad_x (ad_y z), with both ad matrices obtained before either is used, differs from [x,[y,z]]",
+                outs[2], exp, tvs)
 
 
 def replay_adsum(run, tvs):
